@@ -5,7 +5,8 @@ from harness import common, wire
 
 FAMILY = 'wire'
 RULE = ('1-3 (thorough 1-4) processes placed at depth 0-2, each with 1-4 ports: dict-of-variables ports (one nesting '
-        'level), glob ports with sub-schemas, output ports, ports split/renamed with _path dicts, _path-less dicts '
+        'level), glob ports with sub-schemas (wired by a path, or by a dict with a "*" sub-topology and _path beside or '
+        'inside it), output ports, ports split/renamed with _path dicts, _path-less dicts '
         'listing every sub-key, ".." at any position, two ports wired to one store; partial initial states and glob '
         'children named by the initial state. Kinds: view (topology view as absolute paths + states dict), invert '
         '(inverse_topology of a token update), apply (state after the inverted update). Non-trivial: >=2 ports; '
@@ -48,6 +49,7 @@ def generate(seed, tier, enlarged=False):
     n = 300 if tier == 'quick' else 6000
     if enlarged:
         n *= 3
+    wire.GLOBDICT_WEIGHT[0] = 2
     cases = wire.gen_cases(rng, n, ['view', 'invert', 'apply', 'apply'], 3 if tier == 'quick' else 4)
     # glob ports whose topology carries a '*' entry (oracle only: no '*' entries in the model's topologies)
     from harness import globtopo
@@ -96,6 +98,11 @@ def oracle(c, ob, rng):
     if c['kind'] == 'globtopo':
         from harness import globtopo
         return globtopo.oracle(c, ob, rng)
+    if ob.get('topology_mutated'):
+        msgs.append(('inverse_topology changed the topology it was given (a second call with the same topology '
+                     'routes the same update elsewhere)', 'topology-mutated'))
+    if ob.get('update_mutated'):
+        msgs.append(('inverse_topology modified the update it was given', 'update-mutated'))
     if c['kind'] != 'apply' or 'ok' not in ob:
         return msgs
     from vivarium.library.topology import inverse_topology
